@@ -143,10 +143,14 @@ def finish(rep, tier, t0, fb, seed=0):
         ins = per_rule.get(rid, [])
         print('%s %s: %d instances, %d hold, %d violated (floor %d)' % (prop, rid, len(ins), sum(1 for i in ins if i['verdict'] == HOLDS),
                                                                       sum(1 for i in ins if i['verdict'] == VIOLATED), rep.rules[rid]['floor']))
-    if broken:
+    if broken and not viol:
         for b in broken[:20]:
             print('ANALYSIS-BROKEN property=%s reason=%s' % (prop, b))
         return 2
+    if broken:
+        # a violated instance usually is the reason why fewer instances than confirmed were found: the violation is reported
+        for b in broken[:10]:
+            print('note: %s' % b)
     if viol:
         for i in viol:
             print('  violated: %s %s at %s: %s' % (i['rule'], i['key'], i['where'], i['detail']))
